@@ -313,6 +313,7 @@ stun_usage_ice_conncheck_create_reply (StunAgent *agent, StunMessage *req,
 
   if (stun_agent_init_response (agent, msg, buf, len, req) == FALSE) {
     stun_debug ("Unable to create response");
+    val = STUN_MESSAGE_RETURN_NOT_ENOUGH_SPACE;
     goto failure;
   }
   if (compatibility == STUN_USAGE_ICE_COMPATIBILITY_MSN) {
